@@ -5,6 +5,7 @@ import (
 
 	"github.com/aperturerobotics/bifrost/peer"
 	"github.com/aperturerobotics/util/promise"
+	"github.com/pkg/errors"
 )
 
 // Dialer represents a ongoing attempt to dial an address
@@ -67,6 +68,27 @@ func (d *Dialer) Execute() {
 		le.WithError(err).Warn("quic: failed to dial peer")
 		d.result.SetResult(nil, err)
 		return
+	}
+
+	// The dial function does not know which peer we expect: verify that the peer
+	// that answered at this address is the one we were asked to dial before the
+	// session is registered and reported as a link.
+	if d.peerID != "" {
+		remotePeerID, _, err := DetermineSessionIdentity(rconn)
+		if err == nil && remotePeerID != d.peerID {
+			err = errors.Errorf(
+				"dialed %s expecting peer %s but remote peer is %s",
+				d.addr,
+				d.peerID.String(),
+				remotePeerID.String(),
+			)
+		}
+		if err != nil {
+			le.WithError(err).Warn("quic: rejecting dialed session")
+			_ = rconn.CloseWithError(500, "unexpected peer id")
+			d.result.SetResult(nil, err)
+			return
+		}
 	}
 
 	d.result.SetResult(d.t.HandleSession(ctx, rconn))
